@@ -112,6 +112,26 @@ def cases(rng, tier):
             data[off:off + 4] = struct.pack("<i", cnt)
             wrap_cases += 1
             yield Case("w%d" % wrap_cases, ["in 1 %s" % hx(bytes(data)), "session 1 *"], oracle=oracle_session, meta={"dist": {"mutation": "count-wraps-32-bit-size"}})
+    # bit-packed arrays whose type byte is not the boolean type (a writer never produces that, a stream can say it): what
+    # is decoded from the bits is one byte per row whatever the byte says
+    bt_cases = 0
+    for ty in ALLTYPES:
+        for nrows, where in ((3, "col"), (9, "col"), (70, "col"), (5, "prop")):
+            colty = ty if where == "col" else rng.choice(ALLTYPES)
+            bools = rand_array(rng, G.BOOL, nrows)
+            if where == "col":
+                t = {"tmeta": [], "cols": [{"name": b"c", "ty": G.BOOL, "extra": []}], "slices": [[{"vals": bools, "enc": G.BIT, "props": []}]]}
+            else:
+                t = {"tmeta": [], "cols": [{"name": b"c", "ty": colty, "extra": []}],
+                     "slices": [[{"vals": rand_array(rng, colty, nrows), "enc": G.PLAIN, "props": [(b"IsInvalid", G.BOOL, bools, G.BIT)]}]]}
+            e = G.encode_table(t)
+            data = bytearray(e.b)
+            offs = [f for f in e.fields if f[0] == "vatype" and f[3].endswith("bit")]
+            if not offs: continue
+            (fk, off, fw, note) = offs[-1]
+            data[off] = ty
+            bt_cases += 1
+            yield Case("bt%d" % bt_cases, ["in 1 %s" % hx(bytes(data)), "session 1 *"], oracle=oracle_session, meta={"dist": {"mutation": "bit-array-type-byte", "where": where}})
     # column slices whose property list names a property twice (the API refuses that, a stream can say it)
     for i in range({"quick": 40, "thorough": 800, "search": 30}[tier]):
         t = G.rand_table(rng, ncols=rng.choice([1, 2, 3]), nslices=rng.choice([1, 2]), maxrows=6)
